@@ -95,7 +95,13 @@ pub enum Op {
     DiscardFreelist,
     SetMinSeg { v: u32 },
     IncDiscarded { v: u32 },
-    Rewind { pos: Pos },
+    Rewind {
+        pos: Pos,
+        /// never generated; only in the committed histories of the open known finding (DESIGN.md 11.2): do NOT discard a
+        /// free list that reaches above the new cursor before rewinding
+        #[serde(default)]
+        raw: bool,
+    },
     Clear,
     Truncate { n: Size },
     Flush,
@@ -378,7 +384,7 @@ pub fn op_strategy(p: &Profile) -> BoxedStrategy<Op> {
     } else {
         add(p.w_incdisc, (0u32..5000).prop_map(|v| Op::IncDiscarded { v }).boxed());
     }
-    add(p.w_rewind, pos_strategy().prop_map(|pos| Op::Rewind { pos }).boxed());
+    add(p.w_rewind, pos_strategy().prop_map(|pos| Op::Rewind { pos, raw: false }).boxed());
     add(p.w_clear, Just(Op::Clear).boxed());
     add(
         p.w_truncate,
